@@ -120,8 +120,10 @@ package fox
 //@   requires c != nil && c.params != nil && c.tsrParams != nil && c.skipNds != nil
 //@   modifies C[Params], C[skippedNodes], c.tsr, E[Param], E[skippedNode], released
 //@   assert-at call lookupByDomain#1 : stripped-host: same(arg_host, netutil.StripHostPort(hostPort)) && same(arg_path, path) && arg_target == r[index] && arg_lazy == lazy
+//@   requires safety-live: !released[box(c)]
 //@   ensures tsr-flag: c.tsr ==> old(c.tsr)
 //@   ensures leaf: n != nil ==> n.route != nil
+//@   ensures live: !released[box(c)]
 
 //@ -- ---------------------------------------------------------------- C06 / C16: effect clauses (call-graph closure)
 //@ effects (*Router).ServeHTTP : nolock props C06
